@@ -117,6 +117,10 @@ pub(crate) struct LiveEvents<'a> {
 
     /// Error reference that is checked at the end of parsing.
     error: Rc<RefCell<Option<std::io::Error>>>,
+
+    /// Number of containers opened and not yet closed by the events *consumed* so far in the
+    /// current document (peeked events do not count). Zero exactly between complete nodes.
+    open_containers: usize,
 }
 
 /// A single alias-replay stack frame (one active `*alias` expansion).
@@ -191,6 +195,7 @@ impl<'a> LiveEvents<'a> {
             seen_doc_end: false,
 
             error,
+            open_containers: 0,
         }
     }
 }
@@ -238,6 +243,7 @@ impl<'a> LiveEvents<'a> {
 
             // Error field is provided but for string, nothing is ever reported
             error: Rc::new(RefCell::new(None)),
+            open_containers: 0,
         }
     }
 
@@ -742,11 +748,21 @@ impl<'de> Events<'de> for LiveEvents<'de> {
     fn next(&mut self) -> Result<Option<Ev<'de>>, Error> {
         self.io_error()?;
 
-        if let Some(ev) = self.look.take() {
-            self.last_location = ev.location();
-            return Ok(Some(ev));
+        let ev = match self.look.take() {
+            Some(ev) => {
+                self.last_location = ev.location();
+                Some(ev)
+            }
+            None => self.next_impl()?,
+        };
+        match &ev {
+            Some(Ev::SeqStart { .. }) | Some(Ev::MapStart { .. }) => self.open_containers += 1,
+            Some(Ev::SeqEnd { .. }) | Some(Ev::MapEnd { .. }) => {
+                self.open_containers = self.open_containers.saturating_sub(1)
+            }
+            _ => {}
         }
-        self.next_impl()
+        Ok(ev)
     }
     /// Peek at the next event without consuming it, filling the lookahead buffer if empty.
     fn peek(&mut self) -> Result<Option<&Ev<'de>>, Error> {
@@ -784,6 +800,18 @@ impl<'a> LiveEvents<'a> {
     pub(crate) fn seen_doc_end(&self) -> bool {
         self.seen_doc_end
     }
+
+    /// After a document's root value has been deserialized: error if the value stopped in the
+    /// middle of its node (for example a fixed-arity tuple that left surplus elements behind), so
+    /// that the remainder is not mistaken for further documents.
+    pub(crate) fn ensure_root_node_consumed(&self) -> Result<(), Error> {
+        if self.open_containers == 0 {
+            Ok(())
+        } else {
+            Err(Error::unexpected("end of the document's root node")
+                .with_location(self.last_location))
+        }
+    }
     pub(crate) fn synthesized_null_emitted(&self) -> bool {
         self.synthesized_null_emitted
     }
@@ -802,6 +830,7 @@ impl<'a> LiveEvents<'a> {
         self.look = None;
         self.inject.clear();
         self.rec_stack.clear();
+        self.open_containers = 0;
 
         // Pull raw events from the parser until we see DocumentStart or EOF
         while let Some(item) = self.parser.next() {
